@@ -9,7 +9,7 @@ from ..astutil import (
     attr_stores, call_name, calls_in, const_str, dotted, enclosing_stmt, guard_atoms, lexical_guards,
     mutating_calls, name_stores, raised_name, subscript_stores, unparse, walk_local,
 )
-from ..report import Registry, sub
+from ..report import Registry, chain, sub
 from ._helpers_rules_b import OrderFlow, arg_for, call_sites, method_call_sites, ordinal_keys
 
 R = Registry(
@@ -18,13 +18,21 @@ R = Registry(
     decides=(
         "late binding: at every execution-time use of IdentifierPreparer._render_schema_translates in the "
         "package the map argument comes from the execution_options of the executing context (a compiled "
-        "statement's own schema_translate_map is used only as a boolean gate); the compiled-cache key contains "
-        "bool(schema_translate_map); the preparer returned by _with_schema_translate renders a symbolic "
+        "statement's own schema_translate_map is used only as a boolean gate); the compiled-cache key carries a "
+        "predicate of the map that is the same predicate (truthiness today) under which Compiled.__init__ renders "
+        "placeholders, and every later gate at a substitution site is implied by it; every Connection entry point "
+        "that creates an execution context hands it the merge of connection-level and per-execution options and "
+        "compiles with the map read from that same merged object, every statement compiled for execution inside "
+        "Connection / ExecutionContext receives the executing options' map, the context stores exactly the options "
+        "it was given; the preparer returned by _with_schema_translate renders a symbolic "
         "placeholder from the object's own schema name and never reads map values, placeholder format / "
         "substitution regex / None-alias token agree, a None-key mismatch raises; no function on the path "
         "mutates the caller's map."
     ),
-    not_decided="the SQL emitted for arbitrary statements / DDL and its effect per schema on a backend.",
+    not_decided="the SQL emitted for arbitrary statements / DDL and its effect per schema on a backend; whether the options "
+                "of the executed element itself (statement.execution_options()) take part in the merge (true for DDL and "
+                "clause elements today, not for DefaultGenerator; not demanded); cache keys other than "
+                "ClauseElement._compile_w_cache (see C02).",
 )
 
 COMP = "sql/compiler.py"
@@ -337,10 +345,13 @@ def r2(ctx):
     g_swap = _map_gates(ctx, ci, swap_calls[0], is_param, "the switch to the placeholder preparer")
     ctx.require(g_swap, f"{ci.key}: the switch to the placeholder preparer is not under any predicate of the map")
     G, gtxt = _conj(g_swap)
-    ctx.check(bool(g_store) and _conj(g_store)[0] == G, f"{ci.key}:placeholder-gate",
-              f"`self.{OPT}` is stored under {g_store} but the placeholder preparer is installed under `{gtxt}` ({G}): the execution-time "
-              f"gates read the stored attribute and would disagree with what was rendered",
-              f"map stored and placeholder preparer installed under one predicate `{gtxt}` ({G}: {_MEANING[G]})", ci.loc)
+    # whenever placeholders are rendered the map must also be stored (the execution-time gates read the stored attribute)
+    ctx.check(not g_store or (G, _conj(g_store)[0]) in _IMPLIES, f"{ci.key}:placeholder-gate",
+              f"the placeholder preparer is installed under `{gtxt}` ('{G}') but `self.{OPT}` is stored only under "
+              f"`{_conj(g_store)[1] if g_store else ''}`: for a map that passes the first test only, placeholders are rendered while the "
+              f"execution-time gates (which read the stored attribute) see no map and never substitute them",
+              f"placeholder preparer installed under `{gtxt}` ('{G}': {_MEANING[G]}); map stored "
+              + (f"under `{_conj(g_store)[1]}`" if g_store else "unconditionally"), ci.loc)
 
     # (2) the key component K: a function of the map from which G can be recomputed
     comps = []
@@ -509,8 +520,8 @@ def r3(ctx):
     pmr = r.module.parents()
     mpr = [p for p in r.params if p != "self"][1]
     aliases = {mpr} | {n for n, v, st in name_stores(r.node)
-                       if (isinstance(v, ast.Name) and v.id == mpr)
-                       or (isinstance(v, ast.Call) and any(isinstance(a, ast.Name) and a.id == mpr for a in v.args))}
+                       if isinstance(v, (ast.Name, ast.Call, ast.Dict))
+                       and any(isinstance(a, ast.Name) and a.id == mpr for a in ast.walk(v))}
     gained = lost = False
     for rz in [n for n in walk_local(r.node, into_nested=True) if isinstance(n, ast.Raise)]:
         if not (raised_name(rz) or "").endswith("InvalidRequestError"):
@@ -649,6 +660,32 @@ def _map_receivers(of, e, fn, at, depth=0):
         for v, st in binds:
             out |= {f"other:{unparse(st)[:50]}"} if v is None else _map_receivers(of, v, fn, st, depth + 1)
         return out
+    # one level of helper: `self.<property>` / `self.<method>(args)` whose single return value is an option read
+    callee, args = None, []
+    if isinstance(e, ast.Attribute) and dotted(e.value) == "self" and fn.cls is not None:
+        callee = of.ctx.index.resolve_method(fn.cls, e.attr)
+        if callee is not None and not any(d.endswith("property") for d in callee.decorators):
+            callee = None
+    elif isinstance(e, ast.Call) and isinstance(e.func, ast.Attribute) and dotted(e.func.value) == "self" and fn.cls is not None:
+        callee = of.ctx.index.resolve_method(fn.cls, e.func.attr)
+        args = e.args
+    if callee is not None and depth < 6:
+        rets = [r.value for r in ast.walk(callee.node) if isinstance(r, ast.Return) and r.value is not None]
+        if len(rets) == 1:
+            inner = _map_receivers(of, rets[0], callee, None, depth + 1)
+            ps = [p for p in callee.params if p != "self"]
+            out = set()
+            for x in inner:
+                nm = x.split(":", 1)[1]
+                if x.startswith("opts:") and nm in ps and ps.index(nm) < len(args):
+                    out.add("opts:" + (dotted(args[ps.index(nm)]) or unparse(args[ps.index(nm)])))
+                elif x.startswith("opts:self."):
+                    out.add(x)
+                elif x == "none":
+                    out.add(x)
+                else:
+                    out.add(f"other:{unparse(e)[:40]} -> {nm[:40]}")
+            return out
     return {"other:" + unparse(e)[:60]}
 
 
@@ -719,7 +756,8 @@ def r5(ctx):
               f"the context constructor is given `{unparse(a) if a is not None else '?'}` instead of the caller's merged options (or an extension of them)",
               f"constructor(..., {unparse(a) if a is not None else '?'}, ...) = the `{a.id if isinstance(a, ast.Name) else '?'}` parameter (extended by union only)",
               ectx.loc)
-    ectx_opt_param = a.id if isinstance(a, ast.Name) else None
+    ectx_opt_param = a.id if okfwd else ("execution_options" if "execution_options" in ectx.params else None)
+    ctx.require(ectx_opt_param is not None, f"{ectx.key}: no options parameter")
 
     # (c) the entry points: methods of Connection that create a context
     entries = []
@@ -810,6 +848,7 @@ R.mutant("engine-passes-render-flag", "engine/base.py",
              "        compiled = ddl.compile(\n            dialect=dialect, schema_translate_map=schema_translate_map,\n            render_schema_translate=True,\n        )"), "C16-R1")
 R.mutant("cache-key-without-map-flag", "sql/elements.py",
          sub("                tuple(column_keys),\n                bool(schema_translate_map),\n                for_executemany,", "                tuple(column_keys),\n                for_executemany,"), "C16-R2")
+# seeded C16/1: the key component and the compile-time gate are different predicates of the map
 R.mutant("cache-key-map-is-not-none", "sql/elements.py",
          sub("                bool(schema_translate_map),\n", "                schema_translate_map is not None,\n"), "C16-R2")
 R.mutant("cached-compile-without-map", "sql/elements.py",
@@ -837,7 +876,61 @@ R.mutant("compiled-init-normalises-in-place", COMP,
 R.mutant("connection-schema-for-object-caches-in-map", "engine/base.py",
          sub("            return schema_translate_map[name]\n        else:\n            return name",
              "            return schema_translate_map[name]\n        else:\n            if schema_translate_map is not None:\n                schema_translate_map[name] = name\n            return name"), "C16-R4")
+_GATE_BLOCK = ("        if schema_translate_map:\n            self.schema_translate_map = schema_translate_map\n"
+               "            self.preparer = self.preparer._with_schema_translate(\n                schema_translate_map\n            )\n")
+R.mutant("compiled-gate-is-not-none", COMP,
+         sub(_GATE_BLOCK, _GATE_BLOCK.replace("if schema_translate_map:", "if schema_translate_map is not None:")), "C16-R2")
+R.mutant("compiled-renders-for-empty-map-but-stores-nonempty", COMP,
+         sub(_GATE_BLOCK,
+             "        if schema_translate_map:\n            self.schema_translate_map = schema_translate_map\n"
+             "        if schema_translate_map is not None:\n"
+             "            self.preparer = self.preparer._with_schema_translate(\n                schema_translate_map\n            )\n"), "C16-R2")
+R.mutant("render-aliases-callers-map", COMP,
+         sub("        d = dict(schema_translate_map)\n        if None in d:", "        d = schema_translate_map\n        if None in d:"), "C16-R4")
+R.mutant("init-compiled-uses-connection-level-map", DEF,
+         sub("        if compiled.schema_translate_map:\n            schema_translate_map = self.execution_options.get(\n                \"schema_translate_map\", {}\n            )\n            rst = compiled.preparer._render_schema_translates\n",
+             "        if compiled.schema_translate_map:\n            schema_translate_map = connection._schema_translate_map\n            rst = compiled.preparer._render_schema_translates\n"), "C16-R1")
+# seeded C16/2: DDL compiled with the connection-level map only
+R.mutant("ddl-compile-map-from-connection-property", "engine/base.py",
+         sub("        schema_translate_map = exec_opts.get(\"schema_translate_map\", None)\n\n        dialect = self.dialect\n\n        compiled = ddl.compile(",
+             "        schema_translate_map = self._schema_translate_map\n\n        dialect = self.dialect\n\n        compiled = ddl.compile("), "C16-R5")
+R.mutant("clauseelement-compile-map-from-connection-options", "engine/base.py",
+         sub("        schema_translate_map = exec_opts.get(\"schema_translate_map\", None)\n\n        compiled_cache:",
+             "        schema_translate_map = self._execution_options.get(\n            \"schema_translate_map\", None\n        )\n\n        compiled_cache:"), "C16-R5")
+R.mutant("ddl-compile-without-map", "engine/base.py",
+         sub("        compiled = ddl.compile(\n            dialect=dialect, schema_translate_map=schema_translate_map\n        )",
+             "        compiled = ddl.compile(dialect=dialect)"), "C16-R5")
+R.mutant("ddl-options-drop-per-execution", "engine/base.py",
+         sub("        exec_opts = ddl._execution_options.merge_with(\n            self._execution_options, execution_options\n        )",
+             "        exec_opts = ddl._execution_options.merge_with(\n            self._execution_options\n        )"), "C16-R5")
+R.mutant("entry-points-use-connection-options-only", "engine/base.py",
+         sub("        exec_opts = self._execution_options.merge_with(execution_options)\n", "        exec_opts = self._execution_options\n", count=2), "C16-R5")
+R.mutant("execute-context-hands-connection-options", "engine/base.py",
+         sub("            context = constructor(\n                dialect, self, conn, execution_options, *args, **kw\n            )",
+             "            context = constructor(\n                dialect, self, conn, self._execution_options, *args, **kw\n            )"), "C16-R5")
+R.mutant("ddl-context-keeps-connection-options", DEF,
+         sub("        self.execution_options = execution_options\n\n        self.unicode_statement = str(compiled)\n        if compiled.schema_translate_map:",
+             "        self.execution_options = connection._execution_options\n\n        self.unicode_statement = str(compiled)\n        if compiled.schema_translate_map:"), "C16-R5")
 # benign
+R.mutant("benign-key-ternary", "sql/elements.py",
+         sub("                bool(schema_translate_map),\n", "                True if schema_translate_map else False,\n"), None)
+R.mutant("benign-key-via-local", "sql/elements.py",
+         chain(sub("                bool(schema_translate_map),\n", "                has_map,\n"),
+               sub("            key = (\n                dialect,\n", "            has_map = not not schema_translate_map\n            key = (\n                dialect,\n")), None)
+R.mutant("benign-compiled-stores-map-unconditionally", COMP,
+         sub(_GATE_BLOCK,
+             "        self.schema_translate_map = schema_translate_map\n        if schema_translate_map:\n"
+             "            self.preparer = self.preparer._with_schema_translate(\n                schema_translate_map\n            )\n"), None)
+R.mutant("benign-compiled-gate-explicit", COMP,
+         sub(_GATE_BLOCK, _GATE_BLOCK.replace("if schema_translate_map:", "if schema_translate_map is not None and len(schema_translate_map) > 0:")), None)
+R.mutant("benign-ddl-inline-option-read", "engine/base.py",
+         sub("        compiled = ddl.compile(\n            dialect=dialect, schema_translate_map=schema_translate_map\n        )",
+             "        compiled = ddl.compile(\n            dialect=dialect,\n            schema_translate_map=exec_opts.get(\"schema_translate_map\"),\n        )"), None)
+R.mutant("benign-ddl-map-through-helper", "engine/base.py",
+         chain(sub("        schema_translate_map = exec_opts.get(\"schema_translate_map\", None)\n\n        dialect = self.dialect\n\n        compiled = ddl.compile(",
+                   "        schema_translate_map = self._map_of(exec_opts)\n\n        dialect = self.dialect\n\n        compiled = ddl.compile("),
+               sub("    def _execute_ddl(\n", "    def _map_of(self, opts):\n        return opts.get(\"schema_translate_map\", None)\n\n    def _execute_ddl(\n")), None)
+R.mutant("benign-rename-merged-options-local", "engine/base.py", lambda src: src.replace("exec_opts", "merged_opts"), None)
 R.mutant("benign-rename-local-map", DEF,
          sub("            rst = self.identifier_preparer._render_schema_translates\n            stmt = rst(stmt, schema_translate_map)",
              "            render = self.identifier_preparer._render_schema_translates\n            stmt = render(stmt, schema_translate_map)"), None)
@@ -847,5 +940,5 @@ R.mutant("benign-direct-call", DEF,
 R.mutant("benign-subscript-option", DEF,
          sub("            schema_translate_map = self.execution_options.get(\n                \"schema_translate_map\", {}\n            )\n\n            rst = self.identifier_preparer",
              "            schema_translate_map = self.execution_options[\n                \"schema_translate_map\"\n            ]\n\n            rst = self.identifier_preparer"), None)
-R.mutant("benign-render-copies-map", COMP,
-         sub("        d = schema_translate_map\n        if None in d:", "        d = dict(schema_translate_map)\n        if None in d:"), None)
+R.mutant("benign-render-copies-map-differently", COMP,
+         sub("        d = dict(schema_translate_map)\n        if None in d:", "        d = {**schema_translate_map}\n        if None in d:"), None)
